@@ -3,6 +3,7 @@ package worldcat
 import (
 	encjson "encoding/json"
 	"fmt"
+	"os"
 	"sort"
 	"strings"
 	"time"
@@ -64,6 +65,14 @@ func (s *CatSc) Run(env *core.Env, st *core.Stats) (vs []core.Violation) {
 	desc := core.Trunc(js, 700)
 	add := func(clause, key, format string, a ...any) {
 		vs = append(vs, core.V(clause, key, format+"; scenario "+desc, a...))
+	}
+	if f := os.Getenv("VERIF_EVENTS"); f != "" {
+		// debugging aid: the event log of the run (replay mode), not read by any check
+		var b strings.Builder
+		for _, e := range ro.events {
+			fmt.Fprintf(&b, "%d actor=%d %s %d %d %q\n", e.t, e.actor, e.kind, e.a, e.b, core.Trunc(e.s, 80))
+		}
+		os.WriteFile(f, []byte(b.String()), 0o644)
 	}
 	if st != nil {
 		st.SimTime(time.Duration(ro.simTime))
@@ -331,7 +340,14 @@ func (s *CatSc) checkIn(ro runOut, st *core.Stats, add func(clause, key, format 
 	delivered := map[int64]map[int64]bool{}
 	seen := map[int64]bool{}
 	last := map[int64]int64{}
+	lastCb := map[int64]int64{} // time of the latest call of each listener
 	for _, e := range ro.events {
+		if e.kind == "slow-callback" {
+			st.Fault("listener-callback-stalls")
+		}
+		if e.kind == "callback-returns" {
+			lastCb[e.a] = e.t // the listener was busy until now
+		}
 		if e.kind != "callback" {
 			continue
 		}
@@ -367,6 +383,7 @@ func (s *CatSc) checkIn(ro runOut, st *core.Stats, add func(clause, key, format 
 			return
 		}
 		last[j] = k
+		lastCb[j] = e.t
 		if delivered[j] == nil {
 			delivered[j] = map[int64]bool{}
 		}
@@ -385,6 +402,11 @@ func (s *CatSc) checkIn(ro runOut, st *core.Stats, add func(clause, key, format 
 		if !l.ok {
 			continue
 		}
+		// a listener that is never stopped is served until the run is ended
+		until := l.stopCall
+		if ro.simTime < until {
+			until = ro.simTime
+		}
 		for _, k := range order {
 			if ed[k] == 0 {
 				continue
@@ -393,12 +415,24 @@ func (s *CatSc) checkIn(ro runOut, st *core.Stats, add func(clause, key, format 
 				st.Probe("in:record-of-a-switched-off-class")
 				continue
 			}
-			if es[k] >= l.lr && ed[k]+quiescence <= l.stopCall {
+			if es[k] >= l.lr && ed[k]+quiescence <= until {
 				st.Probe("in:must-deliver-record")
-				if !delivered[j][k] {
-					add("in-delivery", "lost", "record %d was written by the helper at fake t=%d..%d ns while listener #%d was active (Listen returned at %d, stop called at %d) but never reached it", k, es[k], ed[k], j, l.lr, l.stopCall)
+				if delivered[j][k] {
+					continue
+				}
+				// Overdue. Delivery is in order, so a later record that did arrive proves a loss;
+				// otherwise the record may still wait in a queue inside the driver, which is
+				// no loss as long as the listener keeps being served: a loss it is when nothing
+				// at all reached the listener during the last quiescence period of the window.
+				if last[j] > k {
+					add("in-delivery", "lost", "record %d was written by the helper at fake t=%d..%d ns while listener #%d was active (Listen returned at %d, stop called at %d) but never reached it, record %d did", k, es[k], ed[k], j, l.lr, l.stopCall, last[j])
 					return
 				}
+				if until-lastCb[j] > quiescence {
+					add("in-delivery", "lost", "record %d was written by the helper at fake t=%d..%d ns while listener #%d was active (Listen returned at %d, stop called at %d, run ended at %d) but never reached it; the listener was last called at t=%d", k, es[k], ed[k], j, l.lr, l.stopCall, ro.simTime, lastCb[j])
+					return
+				}
+				st.Probe("in:backlog-still-draining-at-the-end-of-the-window")
 			} else if es[k] < l.stopRet && ed[k] > l.lr {
 				st.Probe("in:record-in-flight-at-listen/stop-boundary")
 			}
